@@ -1204,6 +1204,9 @@ def execute(program, ctx, mode):
                     ctx.violation('C03', 'strict-transient', 'C03|strict|rebase-raises-although-every-node-has-C3',
                                   {'node': s, 'bases': dict(bases_of), 'old': old})
                 ctx.probe('strict-raise-expected')
+                # (what the refused specification answers now is not judged, but it is logged: both implementations must agree)
+                ctx.log(step, 'after-refused-rebase', [bool(node[s].isOrExtends(node[t])) for t in L if node.get(t) is not None][:16],
+                        [bool(node[t].providedBy(keep[s])) for t in L if kind[s] == 'prov' and kind.get(t) == 'I' and node.get(t) is not None][:8])
                 raise Stop()     # propagation was aborted; the statement is vacuous from here
             elif expect_raise is True:
                 ctx.violation('C03', 'strict-missed', 'C03|strict|rebase-accepted-although-no-C3',
